@@ -17,6 +17,7 @@ from typing import (
     Callable,
     Collection,
     Generator,
+    Mapping,
     Optional,
     Type,
     TypeVar,
@@ -199,8 +200,19 @@ def _str_to_set(
         return cast(set[str], set())
     if isinstance(value, str):
         return {value}
+    if isinstance(value, Mapping):
+        # Not a collection of values. Let the validator complain.
+        return value  # type: ignore
     if hasattr(value, "__iter__"):
-        return set(value)
+        try:
+            return set(value)
+        except TypeError as error:
+            # Unhashable items, e.g. nested arrays or tables.
+            raise GlobalLicensingParseTypeError(
+                _("Unexpected item in collection (got {value}).").format(
+                    value=repr(value)
+                )
+            ) from error
     return {value}
 
 
@@ -408,6 +420,19 @@ class ReuseTOML(GlobalLicensing):
         new_dict["source"] = source
 
         annotation_dicts = values.get("annotations", [])
+        if not isinstance(annotation_dicts, list) or not all(
+            isinstance(item, Mapping) for item in annotation_dicts
+        ):
+            raise GlobalLicensingParseTypeError(
+                _(
+                    "'annotations' must be an array of tables (got {value} that"
+                    " is a {value_class})."
+                ).format(
+                    value=repr(annotation_dicts),
+                    value_class=repr(annotation_dicts.__class__),
+                ),
+                source=source,
+            )
         try:
             annotations = [
                 AnnotationsItem.from_dict(annotation)
